@@ -1,5 +1,7 @@
 import Req.Lemmas.CancelInv
 /-! Preservation of the C08 lifecycle invariant by the environment events. -/
+set_option linter.unusedSimpArgs false
+set_option linter.unusedVariables false
 namespace Req.Cancel
 
 set_option maxHeartbeats 800000 in
